@@ -87,7 +87,6 @@ Definition nat_u32 (n : nat) : N := N.of_nat n mod 4294967296.      (* `input_in
 Section IMPL.
 Variable pt_ok : bytes -> bool.
 Variable maxvec : N.
-Variables cap_txin cap_txout : N.
 Variable H : bytes -> bytes.
 Variable Htag : bytes -> bytes.
 
@@ -96,13 +95,16 @@ Definition e_value : cvalue -> bytes := enc (c_value pt_ok).
 Definition e_asset : casset -> bytes := enc (c_asset pt_ok).
 Definition e_issuance : issuance -> bytes := enc (c_issuance pt_ok).
 Definition e_outpoint : outpoint -> bytes := enc c_outpoint.
-Definition e_txin : txin -> bytes := enc (c_txin pt_ok maxvec).
 Definition e_txout : txout -> bytes := enc (c_txout pt_ok maxvec).
 Definition e_rangeproof : option bytes -> bytes := enc (c_rangeproof maxvec).
 Definition e_surjproof : option bytes -> bytes := enc (c_surjproof maxvec).
 Definition e_outwit : outwit -> bytes := enc (c_outwit maxvec).
-Definition e_txins : list txin -> bytes := enc (c_vec (c_txin pt_ok maxvec) cap_txin).       (* Vec<TxIn>::consensus_encode *)
-Definition e_txouts : list txout -> bytes := enc (c_vec (c_txout pt_ok maxvec) cap_txout).   (* Vec<TxOut>::consensus_encode *)
+(* TxIn::consensus_encode, literally (`if self.has_issuance()`); it equals `enc (c_txin ..)` of Model/Tx.v on canonical inputs
+   (Proofs/Sighash.v, e_txin_canonical) *)
+Definition e_txin (i : txin) : bytes :=
+  o_txid (in_prev i) ++ e_u32 (wire_vout i) ++ e_script (in_script i) ++ e_u32 (in_seq i) ++ (if has_issuance i then e_issuance (in_iss i) else []).
+Definition e_txins (l : list txin) : bytes := vi_enc (N.of_nat (length l)) ++ flat_map e_txin l.       (* Vec<TxIn>::consensus_encode *)
+Definition e_txouts (l : list txout) : bytes := vi_enc (N.of_nat (length l)) ++ flat_map e_txout l.   (* Vec<TxOut>::consensus_encode *)
 
 (* the closures given to get_or_insert_with *)
 Definition compute_common (t : tx) : common_cache :=
